@@ -107,10 +107,12 @@ func BuildDIMap(identifiers []CodeDataStruct, identifierMap map[string]CodeDataS
 	for _, clz := range identifiers {
 		if len(clz.Annotations) > 0 {
 			for _, annotation := range clz.Annotations {
-				if (annotation.IsComponentOrRepository()) && len(clz.Implements) > 0 {
-					// the injected interface stands for the component that implements it
-					if superClz, ok := identifierMap[clz.Implements[0]]; ok {
-						diMap[superClz.GetClassFullName()] = clz.GetClassFullName()
+				if annotation.IsComponentOrRepository() {
+					// every injected interface stands for the component that implements it
+					for _, implemented := range clz.Implements {
+						if superClz, ok := identifierMap[implemented]; ok {
+							diMap[superClz.GetClassFullName()] = clz.GetClassFullName()
+						}
 					}
 				}
 			}
